@@ -172,7 +172,22 @@ pub fn build_base(b: &BaseEvent) -> BuiltEvent {
             *r.pick(&[64usize, wire_delay - 1, wire_delay, wire_delay + 1, 200, 400, 698])
         };
         let cid = bi as u64 * 32 + ch as u64;
-        let wf = signature(cid, n, *r.pick(&[3000i16, 2900, -500]), 150, -32768, 32764);
+        let mut wf = signature(cid, n, *r.pick(&[3000i16, 2900, -500]), 150, -32768, 32764);
+        // a quiet wire: every sample after the delay sits exactly on that wire's calibration baseline
+        // for the run (read from the shipped tables). Its calibrated waveform is all zeros - a
+        // channel WITH data, not an empty one. (Separate stream: the other draws keep their values.)
+        if n > wire_delay && (b.seed ^ cid.wrapping_mul(0x9E37_79B9)) % 7 == 0 {
+            let w = (0..256).find(|&w| maps.wire_src[w] == Some((bi, ch)));
+            let cal = crate::refcal::cal_for(b.run);
+            if let (Some(w), Some(bl)) = (w, cal.wire_baseline.as_ref()) {
+                if let Some(v) = bl.get(&w) {
+                    let flat = v.round() as i16;
+                    for x in wf.iter_mut().skip(wire_delay) {
+                        *x = flat;
+                    }
+                }
+            }
+        }
         let mut spec = AdcSpec::unsuppressed(board.mac, bi as u8, 128 + ch, wf);
         if n >= 68 && r.chance(1, 4) {
             // suppression on, data kept: keep_last in 34..=n/2, so that (keep_last-1)*2-2 < n
@@ -221,7 +236,21 @@ pub fn build_base(b: &BaseEvent) -> BuiltEvent {
             .iter()
             .map(|&pc| {
                 let cid = 10_000 + (bi as u64 * 4 + chip as u64) * 80 + pc as u64;
-                PwbChannel { readout_index: readout_of_pad_channel(pc), count_field: None, samples: signature(cid, req as usize, 1725, 120, -2048, 2047) }
+                let mut samples = signature(cid, req as usize, 1725, 120, -2048, 2047);
+                // a quiet pad: flat at its calibration baseline after the delay (all-zero signal, not an
+                // empty channel)
+                if (b.seed ^ cid.wrapping_mul(0x9E37_79B9)) % 11 == 0 {
+                    if let Some(pos) = crate::evmodel::pad_forward(&maps, bi, chip, pc) {
+                        let cal = crate::refcal::cal_for(b.run);
+                        if let Some(v) = cal.pad_baseline.as_ref().and_then(|m| m.get(&pos)) {
+                            let flat = v.round() as i16;
+                            for x in samples.iter_mut().skip(pad_delay) {
+                                *x = flat;
+                            }
+                        }
+                    }
+                }
+                PwbChannel { readout_index: readout_of_pad_channel(pc), count_field: None, samples }
             })
             .collect();
         // reset / FPN channels ride along and must be ignored
